@@ -123,6 +123,55 @@ fn check_all(rep: &mut Report, w: &W, cfgname: &str, phase: &str, full_sub: bool
     }
 }
 
+/// the positions in use - where a known text selection begins or ends - are those of the annotated ranges, whatever the
+/// milestone interval (milestones live in the same index and are no positions in use); and a resource that is put
+/// into another store keeps its known selections
+fn check_positions(rep: &mut Report, w: &W, cfgname: &str, text: &str, ranges: &[(usize, usize)]) {
+    use std::collections::BTreeSet;
+    let n = text.chars().count();
+    let begins: BTreeSet<usize> = ranges.iter().map(|r| r.0).collect();
+    let ends: BTreeSet<usize> = ranges.iter().map(|r| r.1).collect();
+    let both: BTreeSet<usize> = begins.union(&ends).cloned().collect();
+    let ctx = || vec![format!("text={:?} config={} annotated ranges={:?}", text, cfgname, ranges)];
+    let got = guarded(std::panic::AssertUnwindSafe(|| {
+        let r = w.store.resource("r").unwrap();
+        let res: &TextResource = r.as_ref();
+        let p = |m: PositionMode| res.positions(m).cloned().collect::<BTreeSet<usize>>();
+        let pr = |m: PositionMode| res.positions_in_range(m, 0, n + 2).cloned().collect::<BTreeSet<usize>>();
+        let single: BTreeSet<usize> = (0..n + 2).filter(|i| res.position(*i).is_some()).collect();
+        (p(PositionMode::Begin), p(PositionMode::End), p(PositionMode::Both), pr(PositionMode::Begin), pr(PositionMode::End), pr(PositionMode::Both), single)
+    }));
+    rep.count("positions-in-use");
+    match got {
+        Err(m) => rep.fail("panic", "positions/panic", ctx(), "positions", &m),
+        Ok((b, e, bo, rb, re, rbo, single)) => {
+            if b != begins || rb != begins { rep.fail("oracle", "positions/begin", ctx(), &format!("{:?}", begins), &format!("positions: {:?} in range: {:?}", b, rb)); }
+            if e != ends || re != ends { rep.fail("oracle", "positions/end", ctx(), &format!("{:?}", ends), &format!("positions: {:?} in range: {:?}", e, re)); }
+            if bo != both || rbo != both { rep.fail("oracle", "positions/both", ctx(), &format!("{:?}", both), &format!("positions: {:?} in range: {:?}", bo, rbo)); }
+            if single != both { rep.fail("oracle", "positions/position-lookup", ctx(), &format!("Some exactly at {:?}", both), &format!("Some at {:?}", single)); }
+        }
+    }
+    // the resource, with its known selections, put into a store of its own (any milestone interval): the selections stay known
+    for iv in [0usize, 1, 2, 4, 100] {
+        let got = guarded(std::panic::AssertUnwindSafe(|| -> Result<Vec<(usize, usize, bool, bool)>, String> {
+            let copy: TextResource = { let r = w.store.resource("r").unwrap(); let rr: &TextResource = r.as_ref(); rr.clone() };
+            let mut st2 = AnnotationStore::new(Config::default().with_milestone_interval(iv));
+            st2.insert(copy).map_err(|e| format!("{}", e))?;
+            let r2 = st2.resource("r").ok_or("no resource")?;
+            let res2: &TextResource = r2.as_ref();
+            let fwd: BTreeSet<(usize, usize)> = res2.iter().map(|t| (t.begin(), t.end())).collect();
+            let bwd: BTreeSet<(usize, usize)> = res2.iter().rev().map(|t| (t.begin(), t.end())).collect();
+            Ok(ranges.iter().map(|(b, e)| (*b, *e, res2.known_textselection(&Offset::simple(*b, *e)).ok().flatten().is_some(), fwd.contains(&(*b, *e)) && bwd.contains(&(*b, *e)))).collect())
+        }));
+        rep.count("resource-moved-to-another-store");
+        match got {
+            Err(m) => rep.fail("panic", "moved-resource/panic", ctx(), "a store", &m),
+            Ok(Err(_)) => rep.count("resource-moved:refused"),
+            Ok(Ok(v)) => if let Some(x) = v.iter().find(|x| !x.2 || !x.3) { rep.fail("oracle", "moved-resource/known-selection-lost", { let mut c = ctx(); c.push(format!("the resource inserted into a new store with milestone interval {}", iv)); c }, &format!("{}-{} known and iterated in both directions", x.0, x.1), &format!("known={} iterated={}", x.2, x.3)); },
+        }
+    }
+}
+
 fn parse_pairs(s: &str) -> Vec<(usize, usize)> {
     if s == "-" {
         return vec![];
@@ -200,12 +249,14 @@ pub fn run(opts: &Opts) -> Report {
                 check_all(&mut rep, &w, &cfgname, "fresh", n <= 4);
                 // populate the position index with annotations, then ask again
                 let k = 1 + rng.below(4);
+                let mut ranges: Vec<(usize, usize)> = vec![];
                 for _ in 0..k {
                     let b = rng.below(n + 1);
                     let e = b + rng.below(n - b + 1);
-                    let _ = w.store.annotate(AnnotationBuilder::new().with_target(SelectorBuilder::textselector("r", Offset::simple(b, e))));
+                    if w.store.annotate(AnnotationBuilder::new().with_target(SelectorBuilder::textselector("r", Offset::simple(b, e)))).is_ok() { ranges.push((b, e)); }
                 }
                 check_all(&mut rep, &w, &cfgname, "annotated", n <= 4);
+                check_positions(&mut rep, &w, &cfgname, text, &ranges);
                 // the configuration of a live store is replaced (Configurable::set_config): the indices were built under
                 // the old settings, the answers must not change
                 if (ti + ci) % 2 == 0 {
